@@ -251,11 +251,47 @@ def slot(prog: Program, res: Result) -> None:
             res.undecided("SLOT", short, desc, prog.loc(fi, lp))
 
 
+def rank_by_mode(prog: Program, res: Result) -> None:
+    """Per-mode sequences (requested ranks) are looked up BY MODE inside a loop that visits the modes in a caller-chosen order:
+    pairing them with the loop by position (zip / enumerate index) gives mode dimorder[i] the rank of mode i."""
+    for short, seqs in (("hosvd.hosvd", ("ranks",)), ("tucker_als.tucker_als", ("rank",))):
+        fi = prog.func(short)
+        desc = f"inside the sweep over `dimorder` the per-mode sequence(s) {list(seqs)} are indexed by the mode, not by the position in the sweep"
+        bad = None
+        n_loops = 0
+        for lp in ast.walk(fi.node):
+            if not isinstance(lp, ast.For):
+                continue
+            it = lp.iter
+            names_in_iter = {x.id for x in ast.walk(it) if isinstance(x, ast.Name)}
+            if "dimorder" not in names_in_iter:
+                continue
+            n_loops += 1
+            if isinstance(it, ast.Call) and (dotted(it.func) or "") in ("zip", "enumerate"):
+                if any(sq in names_in_iter for sq in seqs):
+                    bad = bad or (lp, f"`for {ast.unparse(lp.target)} in {ast.unparse(it)}` pairs `dimorder` with {[q for q in seqs if q in names_in_iter]} by position")
+                if (dotted(it.func) or "") == "enumerate" and isinstance(lp.target, ast.Tuple) and isinstance(lp.target.elts[0], ast.Name):
+                    idx = lp.target.elts[0].id
+                    for x in ast.walk(lp):
+                        if isinstance(x, ast.Subscript) and isinstance(x.value, ast.Name) and x.value.id in seqs and isinstance(x.slice, ast.Name) \
+                                and x.slice.id == idx:
+                            bad = bad or (x, f"`{ast.unparse(x)}` indexes `{x.value.id}` by the sweep position `{idx}`")
+        if bad:
+            res.bad("SLOT", short, desc, prog.loc(fi, bad[0]),
+                    bad[1] + ": with a sweep order other than 0..N-1 and non-uniform ranks, modes get each other's ranks (and relabelling the modes "
+                    "consistently no longer relabels the result)")
+        elif n_loops:
+            res.ok("SLOT", short, desc, prog.loc(fi), f"{n_loops} sweep loop(s)")
+        else:
+            res.undecided("SLOT", short, desc, prog.loc(fi), "no loop over dimorder")
+
+
 def check(prog: Program, res: Result, tier: str) -> None:
     res.explanation = __doc__.split("\n\n", 1)[1]
     res.assumptions = ["scipy.linalg.eigh returns ascending real eigenvalues and orthonormal eigenvector columns",
                        "ttm(.., transpose=True) multiplies by the transposed matrices (C02)"]
-    res.floors = {"THR": 2, "UNITS": 1, "EIG": 2, "TTM-T": 4, "FIT": 3, "SLOT": 2}
+    res.floors = {"THR": 2, "UNITS": 1, "EIG": 2, "TTM-T": 4, "FIT": 3, "SLOT": 4}
+    rank_by_mode(prog, res)
     slot(prog, res)
     thr(prog, res)
     units(prog, res)
